@@ -818,6 +818,16 @@ class Executor:
             if op == 'Div': return (a / b) if signed else z3.UDiv(a, b)
             if op == 'Rem': return z3.SRem(a, b) if signed else z3.URem(a, b)
             raise Unsupported(f'bv binop {op}')
+        # machine integers as mathematical integers (operands within the type's range): the result keeps the mod-2^k semantics
+        if (z3.is_int(a) or isinstance(a, int)) and (z3.is_int(b) or isinstance(b, int)) and (ty or '') in INT_BITS and op in (
+                'Add', 'Sub', 'AddUnchecked', 'SubUnchecked', 'AddWithOverflow', 'SubWithOverflow'):
+            bits = INT_BITS[ty]
+            signed = ty.startswith('i')
+            lo, hi = (-(1 << (bits - 1)), (1 << (bits - 1)) - 1) if signed else (0, (1 << bits) - 1)
+            r = (a + b) if op.startswith('Add') else (a - b)
+            wrapped = z3.If(r > hi, r - (1 << bits), z3.If(r < lo, r + (1 << bits), r))
+            if op.endswith('WithOverflow'): return Tup([Cell(wrapped), Cell(z3.Or(r > hi, r < lo))])
+            return wrapped
         # arithmetic sorts (Real/Int): versions as a dense order
         if op == 'Eq': return a == b
         if op == 'Ne': return a != b
